@@ -533,6 +533,8 @@ fn run_history(disk: &[usize], steps: &[Step], located_only: Option<&'static str
                 };
                 // import strings with URL syntax in them (`#`, `?`, `%`, blanks, line breaks) resolve differently on a
                 // file system (fragment and query are ignored) and in the in-memory loader: not judged
+                // (`use "lib";`, which names a directory of the workspace, is judged: a directory is no more a module
+                // than a missing file is, on the file system as in the in-memory loader)
                 let weird_import = texts.iter().any(|t| {
                     t.match_indices("use").any(|(i, _)| {
                         let rest = t[i + 3..].trim_start();
